@@ -83,19 +83,44 @@ def run_parsers(R, tonic, comp, enabled, tag=''):
         R.saw(b)
         hb, ht = b.call1(pat='HeaderMap', name='get')
         R.eq(const_val(b.origin(ht['args'][1])), comp['headers']['accept'], 'C05.R1', 'accept-header-name' + tag, site(b, hb), 'header read by from_accept_encoding_header')
-        fb, ft = b.call1(name='find_map')
-        R.check(ft['dest']['l'] == 0, 'C05.R1', 'accept:first-match-returned' + tag, site(b, fb), 'find_map result is the return value')
-        src = b.origin(ft['args'][0])
-        R.check(mentions_call(src, name='split_by_comma') and mentions_call(src, name='to_str'), 'C05.R1', 'accept:iterates-header' + tag, site(b, fb), 'iterates %s' % show(src)[:200])
-        clo = strip_refs(b.origin(ft['args'][1]))
-        if clo[0] != 'agg' or 'def' not in clo[1]:
-            raise CheckError('UNRECOGNISED: find_map argument is not a closure')
-        cb = tonic.body(clo[1]['def'])
-        R.saw(cb)
-        # captured enabled set must be the function's parameter
-        caps = clo[1].get('fields', [])
-        rows = decision_rows(cb, 0, writers_of(cb, 0))
+        def fn_body(term):
+            t_ = strip_refs(term)
+            if t_[0] == 'agg' and 'def' in t_[1]:
+                return tonic.body(re.compile('^' + re.escape(t_[1]['def']) + '$')), t_
+            if t_[0] == 'fnitem':
+                return tonic.body(re.compile('^' + re.escape(t_[1]) + '$')), t_
+            raise CheckError('UNRECOGNISED: %s is neither a closure nor a function item' % show(t_)[:80])
+        fm = b.calls(name='find_map')
         seen = {}
+        if fm:
+            fb, ft = b.call1(name='find_map')
+            R.check(ft['dest']['l'] == 0, 'C05.R1', 'accept:first-match-returned' + tag, site(b, fb), 'find_map result is the return value')
+            src = b.origin(ft['args'][0])
+            cb, clo = fn_body(b.origin(ft['args'][1]))
+            pred_guard = None
+        else:
+            # filter_map(name -> Option<encoding>).find(|e| enabled.is_enabled(e)): the same first-match selection in two stages
+            fb, ft = b.call1(name='find')
+            R.check(ft['dest']['l'] == 0, 'C05.R1', 'accept:first-match-returned' + tag, site(b, fb), 'find(..) result is the return value')
+            fmc = strip_refs(b.origin(ft['args'][0]))
+            if not is_call(fmc, name='filter_map'):
+                raise CheckError('UNRECOGNISED: find() is not applied to filter_map(..): %s' % show(fmc)[:100])
+            src = fmc[2][0]
+            cb, clo = fn_body(fmc[2][1])
+            pb, pclo = fn_body(b.origin(ft['args'][1]))
+            R.saw(pb)
+            prt = mirlib.returned_terms(pb)
+            okp = False
+            if len(prt) == 1 and is_call(strip_refs(prt[0][1]), name='is_enabled'):
+                ie = strip_refs(prt[0][1])
+                recv = resolve_env(tonic, pb, ie[2][0])
+                en_n = param_of_type(b, r'EnabledCompressionEncodings$')
+                okp = arg_root(strip_refs(recv)) == en_n and arg_root(strip_refs(ie[2][1])) == 2
+            R.check(okp, 'C05.R1', 'accept:find-predicate' + tag, site(pb), 'find predicate = |e| enabled_encodings.is_enabled(e) on the candidate itself: %r' % okp)
+            pred_guard = okp
+        R.check(mentions_call(src, name='split_by_comma') and mentions_call(src, name='to_str'), 'C05.R1', 'accept:iterates-header' + tag, site(b, fb), 'iterates %s' % show(src)[:200])
+        R.saw(cb)
+        rows = decision_rows(cb, 0, writers_of(cb, 0))
         for cons, bb in rows:
             w = block_writes(cb, bb, 0)
             tok, _ = token_of(cons)
@@ -103,9 +128,9 @@ def run_parsers(R, tonic, comp, enabled, tag=''):
             if kind == 'some':
                 g = guards_enabled(cons)
                 R.check(tok == encs.get(val, {}).get('token'), 'C05.R1', 'accept:token:%s%s' % (val, tag), site(cb, bb), 'token %r selects %s (spec token %r)' % (tok, val, encs.get(val, {}).get('token')))
-                R.check(g.get(val) is True, 'C05.R1', 'accept:guard:%s%s' % (val, tag), site(cb, bb),
-                        'row %r -> Some(%s) must be guarded by is_enabled(send-enabled set, %s); guards on the row: %r '
-                        '(unguarded: a server configured to send only gzip answers "grpc-accept-encoding: zstd,gzip" with zstd)' % (tok, val, val, g))
+                R.check(g.get(val) is True or pred_guard is True, 'C05.R1', 'accept:guard:%s%s' % (val, tag), site(cb, bb),
+                        'row %r -> Some(%s) must be guarded by is_enabled(send-enabled set, %s); guards on the row: %r; find predicate: %r '
+                        '(unguarded: a server configured to send only gzip answers "grpc-accept-encoding: zstd,gzip" with zstd)' % (tok, val, val, g, pred_guard))
                 seen[val] = tok
             elif kind == 'none':
                 pass
@@ -115,7 +140,7 @@ def run_parsers(R, tonic, comp, enabled, tag=''):
         # the guard's receiver is the enabled_encodings parameter (captured)
         for bb, t in cb.calls(name='is_enabled'):
             recv = cb.origin(t['args'][0])
-            R.check('enabled_encodings' in show(recv), 'C05.R1', 'accept:guard-receiver' + tag, site(cb, bb), 'is_enabled receiver = %s' % show(recv))
+            R.check('enabled_encodings' in show(recv) or arg_root(strip_refs(resolve_env(tonic, cb, recv))) == param_of_type(b, r'EnabledCompressionEncodings$'), 'C05.R1', 'accept:guard-receiver' + tag, site(cb, bb), 'is_enabled receiver = %s' % show(recv))
         sp = tonic.body('compression::split_by_comma')
         R.saw(sp)
         R.check(any(const_val(sp.origin(a)) == ',' for bb, t in sp.calls(name='split') for a in t['args']), 'C05.R1', 'accept:split-comma' + tag, site(sp), 'split_by_comma splits at ","')
@@ -153,7 +178,7 @@ def run_parsers(R, tonic, comp, enabled, tag=''):
     R.describe('C05.R2', 'refusal: Status::unimplemented + grpc-accept-encoding metadata built from the enabled set (or "identity")')
     with R.guard('C05.R2'):
         b = tonic.body('CompressionEncoding::from_encoding_header')
-        errs = [(bb, i, ops) for bb, i, p, a, ops in mirlib.aggregates(b, 'result::Result', 'Err') if p['l'] == 0]
+        errs = [(bb, i, ops) for bb, i, p, a, ops in returned_aggs(b, 'result::Result', 'Err')]
         R.floor('C05.R2', 'Err returns' + tag, len(errs), 1)
         for bb, i, ops in errs:
             st = b.origin(ops[0])
@@ -164,19 +189,24 @@ def run_parsers(R, tonic, comp, enabled, tag=''):
             k = const_val(b.origin(t['args'][1]))
             R.eq(k, comp['headers']['accept'], 'C05.R2', 'insert-key' + tag, site(b, bb), 'metadata key')
             v = b.origin(t['args'][2])
-            R.check(mentions_call(v, name='into_accept_encoding_header_value') and 'arg2' in show(v), 'C05.R2', 'insert-value-from-enabled' + tag, site(b, bb), 'value = %s' % show(v)[:200])
+            en_n = param_of_type(b, r'EnabledCompressionEncodings$')
+            R.check(mentions_call(v, name='into_accept_encoding_header_value') and mentions_arg(v, en_n), 'C05.R2', 'insert-value-from-enabled' + tag, site(b, bb), 'value = %s' % show(v)[:200])
             recv = b.origin(t['args'][0])
             R.check(mentions_call(recv, name='metadata_mut') and mentions_call(recv, pat='Status::unimplemented'), 'C05.R2', 'insert-into-status' + tag, site(b, bb), 'receiver = %s' % show(recv)[:160])
             for eb, i, ops in errs:
                 R.check(b.dominates(bb, eb), 'C05.R2', 'insert-before-err' + tag, site(b, eb, i), 'the metadata insert dominates the Err return')
         # fallback "identity"
-        cl = [c for c in tonic.children(b) if c.kind == 'closure']
+        cl = [c for c in tonic.bodies if c.kind == 'closure' and (c.parent == b.path or any(c.path.startswith(h + '::') for h in getattr(tonic, 'inlined_helpers', [])))]
         idc = False
-        for c in cl:
+        for c in cl + [b]:
             for bb, t in c.calls(name='from_static'):
-                if const_val(c.origin(t['args'][0])) == comp['identity']:
-                    idc = True
-        R.check(idc, 'C05.R2', 'identity-fallback' + tag, site(b), 'unwrap_or_else(|| from_static("identity")) present')
+                if const_val(c.origin(t['args'][0])) == comp['identity'] and 'Metadata' in (t.get('fn') or ''):
+                    if c is b:
+                        # inline form: only on the None arm of into_accept_encoding_header_value()
+                        idc = any(tm[0] == 'discr' and term_contains(tm, lambda x: is_call(x, name='into_accept_encoding_header_value')) and vals == [0] for s_, vals, tm in b.edge_guards(bb))
+                    else:
+                        idc = True
+        R.check(idc, 'C05.R2', 'identity-fallback' + tag, site(b), 'an empty enabled set is advertised as "identity" (unwrap_or_else(|| from_static("identity")) or the None arm of a match)')
 
     # ---------------------------------------------------------------- R3 accept list
     R.describe('C05.R3', 'into_accept_encoding_header_value lists every enabled slot by as_str and appends identity; enable is idempotent and append-only; as_str table = spec tokens')
